@@ -310,7 +310,7 @@ ReparseC(e, pre, post) ==
      Cl("C03.reparse_defined", TRUE, e.out = "ok")
   \o IF e.out # "ok" THEN None ELSE
      LET w == post[e.res[1]]
-         claim == ValAllSingle(v) /\ NoEsc(v.t)
+         claim == ValAllSingle(v) /\ NoEsc(v.t)     \* (e.a.opt = 0: AnsiString(s.to_str(optimize=False)), same claim by C01 + C02)
      IN Cl("C03.roundtrip_text", claim, claim => w.t = v.t)
      \o Cl("C03.roundtrip_display", claim /\ HasStyle(v), claim => (ValReadable(w) /\ SameDisplay(v, w)))
 
